@@ -42,7 +42,7 @@ def run(check, mirror, tier):
     f_rule = rsenum.struct_fields(src, "DecisionRule")
     f_in = rsenum.struct_fields(src, "InputClause")
     f_out = rsenum.struct_fields(src, "OutputClause")
-    NMAX = 2
+    NMAX = 2 if tier == "quick" else 3
     check.bounds += ["decision table with 0..%d input clauses, 0..%d output clauses, 0..%d rules; every rule has 0..%d input entries and 0..%d output entries, "
                      "all lengths independent" % ((NMAX,) * 5),
                      "get_result: 0..2 output values against 0..2 component names"]
